@@ -468,9 +468,11 @@ def c18(ctx):
         raced, out = raced or r, out + o
         if r:
             break
-    verdicts = validate(ctx, "C18Trace.tla", "C18Trace.cfg", trace, workers=2, what="goroutine events vs ParserCalls machine",
-                        stateful_ev=("begin", "end"))
-    absorb(ctx, trace, verdicts, replay_vector=lambda rec, get: json.loads(open(conc).readline()))
+    if os.path.exists(trace) and os.path.getsize(trace) > 0 and "fatal error: concurrent map" not in out:
+        verdicts = validate(ctx, "C18Trace.tla", "C18Trace.cfg", trace, workers=2, what="goroutine events vs ParserCalls machine",
+                            stateful_ev=("begin", "end"))
+        absorb(ctx, trace, verdicts, replay_vector=lambda rec, get: json.loads(open(conc).readline()))
+    # (a process that the runtime aborted for concurrent map access leaves no complete trace: the abort is the observation)
     ctx.extra["race_detector"] = "data race reported" if raced else "no data race reported"
     if raced:
         ctx.violations.append({"ev": "race", "class": "concurrent", "why": "the Go race detector reported a data race",
